@@ -23,9 +23,10 @@ func Subs(prop string) []Sub { return table[prop] }
 func init() {
 	add("C01", Sub{Name: "C01/enum", Mode: "free", QuickS: 150, ThorS: 1500})
 	add("C12", Sub{Name: "C12/sched", Mode: "controlled", QuickS: 100, ThorS: 1200}, Sub{Name: "C12/race", Mode: "race", QuickS: 100, ThorS: 600, Shards: 8})
-	add("C13", Sub{Name: "C13/fault", Mode: "free", QuickS: 100, ThorS: 900}, Sub{Name: "C13/params", Mode: "free", QuickS: 100, ThorS: 600})
-	add("C15", Sub{Name: "C15/fault", Mode: "free", QuickS: 120, ThorS: 900})
-	add("C17", Sub{Name: "C17/fault", Mode: "free", QuickS: 120, ThorS: 900})
+	add("C13", Sub{Name: "C13/fault", Mode: "free", QuickS: 100, ThorS: 900}, Sub{Name: "C13/params", Mode: "free", QuickS: 100, ThorS: 600},
+		Sub{Name: "C13/sched", Mode: "controlled", QuickS: 80, ThorS: 600})
+	add("C15", Sub{Name: "C15/fault", Mode: "free", QuickS: 120, ThorS: 900}, Sub{Name: "C15/sched", Mode: "controlled", QuickS: 80, ThorS: 600})
+	add("C17", Sub{Name: "C17/fault", Mode: "free", QuickS: 120, ThorS: 900}, Sub{Name: "C17/sched", Mode: "controlled", QuickS: 100, ThorS: 900})
 	add("C14", Sub{Name: "C14/sched", Mode: "controlled", QuickS: 120, ThorS: 1500}, Sub{Name: "C14/cancel", Mode: "free", QuickS: 100, ThorS: 600})
 	add("C02", Sub{Name: "C02/enum", Mode: "free", QuickS: 150, ThorS: 1500})
 	add("C03", Sub{Name: "C03/enum", Mode: "free", QuickS: 150, ThorS: 1500})
